@@ -176,3 +176,34 @@ Example C20_meta_rejects_empty_schema_arrays :
   meta_ok (JObj [("uniqueItems", JStr "true")]) = false /\
   meta_ok (JObj [("minItems", JInt (-1))]) = false.
 Proof. repeat split; reflexivity. Qed.
+
+(* ---- the schema document survives JSONSchema.from_dict(.).to_dict() unchanged: [norm] models that composition
+        (field order of the JSONSchema dataclass, $-aliases, omit_none, const/default sentinels, unknown keys dropped);
+        every output and every collected definition of every sequence of builds is a fixed point ---- *)
+From Verif Require Import SchemaRoundtrip.
+
+Theorem C20_model_roundtrip : forall E cfg fuel ts st ds st',
+  tab_nodup E ->
+  build_seq E cfg fuel ts st = SOk (ds, st') -> defs_nf st ->
+  defs_nf st' /\ Forall (fun d => norm d = NOk d) ds.
+Proof. exact roundtrip_seq. Qed.
+Print Assumptions C20_model_roundtrip.
+
+Theorem C20_model_roundtrip_single : forall E cfg fuel wd uri t st d st',
+  tab_nodup E ->
+  build E cfg fuel wd uri t st = SOk (d, st') -> defs_nf st ->
+  defs_nf st' /\ norm d = NOk d.
+Proof. exact roundtrip_build. Qed.
+Print Assumptions C20_model_roundtrip_single.
+
+Example C20_roundtrip_nonvacuous :
+  (exists ds st', build_seq E3 (mkcfg true "#/x") 3 [TClass "Top"; TNamed true ["a"] [TInt] [Some (JInt 0)]] [] = SOk (ds, st')
+                  /\ Forall (fun d => norm d = NOk d) ds /\ List.length st' = 3%nat) /\
+  norm (JObj [("default", JStr ""); ("const", JBool false); ("x-unknown", JInt 1); ("title", JNull)])
+    = NOk (JObj [("const", JBool false); ("default", JStr "")]) /\
+  norm (JObj [("type", JStr "strin")]) = NErr.
+Proof.
+  split; [|split; reflexivity].
+  eexists _, _. split; [vm_compute; reflexivity|]. split; [|reflexivity].
+  repeat constructor.
+Qed.
